@@ -164,6 +164,76 @@ func runC27(c *Ctx) {
 				return tag == nil && !truth && isFlag(e)
 			})
 			c.Ob("classification", "DialClient#not-found-otherwise", r.Pos(), ok, "not-found is the fallback when no route reported no-direct")
+		default:
+			// the verdict kept in a local instead of a flag: it starts as not-found
+			// (one definition, at the top level of the body, before every other) and
+			// is only ever overwritten with not-connected, under a positive no-direct
+			// test of a dial error.
+			v := dc.varOf(r.Results[1])
+			if v == nil || v.Parent() == nil || v.Parent() == v.Pkg().Scope() || dc.paramIndex(v) != -2 {
+				continue
+			}
+			nNF, nNC, okNF, okNC, other := 0, 0, true, true, false
+			var firstNC, posNF token.Pos
+			for _, fnode := range shallowNodes(dc.Body) {
+				var rhs ast.Expr
+				switch x := fnode.(type) {
+				case *ast.AssignStmt:
+					for i, l := range x.Lhs {
+						if dc.varOf(l) == v {
+							if len(x.Lhs) == len(x.Rhs) {
+								rhs = x.Rhs[i]
+							} else {
+								other = true
+							}
+						}
+					}
+				case *ast.ValueSpec:
+					for i, nm := range x.Names {
+						if dc.Info.Defs[nm] == types.Object(v) {
+							if len(x.Values) == len(x.Names) {
+								rhs = x.Values[i]
+							} else if len(x.Values) != 0 {
+								other = true
+							}
+						}
+					}
+				}
+				if rhs == nil {
+					continue
+				}
+				switch dc.Prov(rhs) {
+				case "global:spec/tun.ErrDestinationNotFound":
+					nNF++
+					posNF = fnode.Pos()
+					top := false
+					for _, st := range dc.Body.List {
+						if st == fnode {
+							top = true
+						}
+						if ds, isDecl := st.(*ast.DeclStmt); isDecl && containsNode(ds, fnode) {
+							top = true
+						}
+					}
+					okNF = okNF && top
+				case "global:spec/tun.ErrTunnelClientNotConnected":
+					nNC++
+					if firstNC == token.NoPos || fnode.Pos() < firstNC {
+						firstNC = fnode.Pos()
+					}
+					okRec := dc.FactsAt(fnode).Has(func(fa *Fact) bool { return fa.Kind == FTrue && dc.IsCall(fa.Call, "spec/tun.IsNoDirect") })
+					c.Ob("classification", "DialClient#no-direct-recorded", fnode.Pos(), okRec, "a route counts as 'client not connected' only when the dial error is a no-direct error")
+					okNC = okNC && okRec
+				default:
+					other = true
+				}
+			}
+			if nNF+nNC == 0 {
+				continue
+			}
+			nclass += 2
+			c.Ob("classification", "DialClient#not-connected-iff-some-no-direct", r.Pos(), !other && nNC >= 1 && okNC, "not-connected is reported when some route's client had no direct connection and none succeeded")
+			c.Ob("classification", "DialClient#not-found-otherwise", r.Pos(), !other && nNF == 1 && okNF && (firstNC == token.NoPos || posNF < firstNC), "not-found is the fallback when no route reported no-direct")
 		}
 	}
 	c.Floor("DialClient classification returns", nclass, 2)
@@ -385,10 +455,81 @@ func runC28(c *Ctx) {
 		return true
 	})
 	c.Floor("loader counters", nc, 2)
+	// the job table has NumRedundantLinks entries, and promise.All answers with one
+	// outcome per job: the length of the table, of the outcomes or of the errors is
+	// the total as well.
+	isJobTable := func(g *Fn, e ast.Expr) bool {
+		lv := g.varOf(e)
+		if lv == nil {
+			return false
+		}
+		defs := g.defsOf(lv)
+		if len(defs) != 1 || defs[0].multi {
+			return false
+		}
+		mk, ok := ast.Unparen(defs[0].rhs).(*ast.CallExpr)
+		if !ok || len(mk.Args) != 2 {
+			return false
+		}
+		if id, ok := mk.Fun.(*ast.Ident); !ok || id.Name != "make" || g.Info.Uses[id] != types.Universe.Lookup("make") {
+			return false
+		}
+		v, ok := g.enclosing(mk).ConstVal(mk.Args[1])
+		return ok && v == "3"
+	}
+	onePerJob := func() bool {
+		all := c.Func("util/promise", "", "All")
+		rets := all.Returns()
+		if len(rets) == 0 {
+			return false
+		}
+		for _, r := range rets {
+			if len(r.Results) != 2 {
+				return false
+			}
+			for _, res := range r.Results {
+				lv := all.varOf(res)
+				if lv == nil {
+					return false
+				}
+				defs := all.defsOf(lv)
+				if len(defs) != 1 || defs[0].multi {
+					return false
+				}
+				mk, ok := ast.Unparen(defs[0].rhs).(*ast.CallExpr)
+				if !ok || len(mk.Args) != 2 {
+					return false
+				}
+				if id, ok := mk.Fun.(*ast.Ident); !ok || id.Name != "make" {
+					return false
+				}
+				if !isLenOf(all, mk.Args[1], func(x ast.Expr) bool { return all.Prov(x) == "param#1" }) {
+					return false
+				}
+			}
+		}
+		return true
+	}
 	isTotal := func(e ast.Expr) bool {
 		g := ld.enclosing(e)
 		if v, ok := g.ConstVal(e); ok {
 			return v == "3"
+		}
+		if isLenOf(g, e, func(x ast.Expr) bool {
+			if isJobTable(g, x) {
+				return true
+			}
+			if pv := g.Prov(x); pv == "call:util/promise.All()#0" || pv == "call:util/promise.All()#1" {
+				for _, call := range ld.CallsTo(true, "util/promise.All") {
+					if !call.Ellipsis.IsValid() || len(call.Args) != 2 || !isJobTable(g.enclosing(call), call.Args[1]) {
+						return false
+					}
+				}
+				return onePerJob()
+			}
+			return false
+		}) {
+			return true
 		}
 		if lv := g.varOf(e); lv != nil {
 			defs := g.defsOf(lv)
@@ -438,6 +579,13 @@ func runC28(c *Ctx) {
 			c.Ob("loader", "routeCacheLoader#ttl:"+types_ExprString(as.Rhs[0]), as.Pos(), false, "unexpected TTL assignment")
 		case lhs == "ret.Value.routes":
 			n++
+			// filtered in place by slices.DeleteFunc: what is kept comes from its
+			// first argument
+			for _, dcall := range ld.CallsTo(false, "slices.DeleteFunc") {
+				if rhs == "call:slices.DeleteFunc()" && len(dcall.Args) == 2 {
+					rhs = ld.Prov(dcall.Args[0])
+				}
+			}
 			c.Ob("loader", "routeCacheLoader#routes-result", as.Pos(), allEmpty(fs) == -1 && allErrored(fs) == -1 && strings.Contains(rhs, "promise.All()#0"), "routes are returned only when neither all-empty nor all-errored; found "+rhs)
 		}
 		return true
@@ -490,6 +638,20 @@ func runC28(c *Ctx) {
 		c.Ob("loader", "routeCacheLoader#empty-slot-is-bare-ErrNotExist", call.Pos(), okEmpty, "an empty slot is reported as the bare fs.ErrNotExist sentinel (the loader classifies with ==)")
 	}
 	// nil routes filtered
+	nFilter := 0
+	for _, dcall := range ld.CallsTo(false, "slices.DeleteFunc") {
+		ok := false
+		if lit, isLit := ast.Unparen(dcall.Args[1]).(*ast.FuncLit); isLit && len(lit.Body.List) == 1 {
+			if r, isRet := lit.Body.List[0].(*ast.ReturnStmt); isRet && len(r.Results) == 1 {
+				g := ld.Closure(lit)
+				if be, isBin := ast.Unparen(r.Results[0]).(*ast.BinaryExpr); isBin && be.Op == token.EQL {
+					ok = isNilIdent(ld.Info, be.Y) && g.Prov(be.X) == "lit.param#0" || isNilIdent(ld.Info, be.X) && g.Prov(be.Y) == "lit.param#0"
+				}
+			}
+		}
+		c.Ob("loader", "routeCacheLoader#nil-routes-filtered", dcall.Pos(), ok, "only successfully decoded (non-nil) routes are kept: the deletion predicate is 'the route is nil'")
+		nFilter++
+	}
 	for _, call := range ld.Calls(false, func(call *ast.CallExpr) bool {
 		id, ok := call.Fun.(*ast.Ident)
 		return ok && id.Name == "append"
@@ -499,7 +661,9 @@ func runC28(c *Ctx) {
 			return ok && truth && be.Op == token.NEQ && isNilIdent(ld.Info, be.Y)
 		})
 		c.Ob("loader", "routeCacheLoader#nil-routes-filtered", call.Pos(), ok, "only successfully decoded (non-nil) routes are kept")
+		nFilter++
 	}
+	c.Floor("loader nil-route filter sites", nFilter, 1)
 	// TTL order
 	sc := c.P("tun/server").Types.Scope()
 	val := func(n string) *big.Int {
@@ -861,10 +1025,23 @@ func runC32(c *Ctx) {
 			}},
 			factReq{"proof key == certificate key", func(g *Fn, fs *FactSet) bool {
 				return fs.Has(func(fa *Fact) bool {
-					if fa.Kind != FTrue || !g.IsCall(fa.Call, "bytes.Equal") {
+					if fa.Kind != FTrue {
 						return false
 					}
-					a, b := g.Prov(fa.Call.Args[0]), g.Prov(fa.Call.Args[1])
+					var a, b string
+					switch {
+					case g.IsCall(fa.Call, "bytes.Equal"):
+						a, b = g.Prov(fa.Call.Args[0]), g.Prov(fa.Call.Args[1])
+					case g.IsCall(fa.Call, "crypto/ed25519.PublicKey.Equal"):
+						// key.Equal(other): the same byte comparison, in constant time
+						se, ok := ast.Unparen(fa.Call.Fun).(*ast.SelectorExpr)
+						if !ok {
+							return false
+						}
+						a, b = g.Prov(se.X), g.Prov(fa.Call.Args[0])
+					default:
+						return false
+					}
 					isProof := func(s string) bool { return s == "call:spec/pow.VerifySolution()#0.PubKey" }
 					isCert := func(s string) bool { return strings.HasSuffix(s, ".PublicKey.(type)#0") }
 					return (isProof(a) && isCert(b)) || (isProof(b) && isCert(a))
@@ -1177,6 +1354,17 @@ func identityByTag(c *Ctx, ei *Fn, lit *ast.CompositeLit, verExpr, tokExpr ast.E
 		// no loops) whose guard holds under the assumption
 		tokenPv := ""
 		decided := true
+		// ([]byte(token) and the like: a conversion carries its operand's value)
+		for {
+			call, ok := ast.Unparen(tokExpr).(*ast.CallExpr)
+			if !ok || len(call.Args) != 1 {
+				break
+			}
+			if tv, ok := ei.Info.Types[call.Fun]; !ok || !tv.IsType() {
+				break
+			}
+			tokExpr = call.Args[0]
+		}
 		if v := ei.varOf(tokExpr); v != nil {
 			var best *vdef
 			defs := ei.defsOf(v)
